@@ -1334,24 +1334,33 @@ package jsonpath
 //@   parsetime
 //@   requires p != nil
 
+// C03 / C15 at parse time: every node that can report a runtime error is built with an error context that names the node
+// itself (evaluation dereferences it without a nil check and measures depth by that node's remaining-path text); for an
+// all-wildcard multi-name selector that includes the union twin that takes over on arrays.
+//@ spec ctxOK(b *syntaxBasicNode) bool = b != nil && b.errorRuntime != nil && b.errorRuntime.node == b
+//@ spec multiCtx(m *syntaxChildMultiIdentifier) bool = m != nil && ctxOK(m.syntaxBasicNode) && (m.isAllWildcard ==> ctxOK(m.unionQualifier.syntaxBasicNode))
 //@ func (*jsonPathParser).pushChildMultiIdentifier
-//@   props C02 C19
+//@   props C02 C19 C03 C15
 //@   parsetime
 //@   requires p != nil
 //@   requires nodeOK(node) && nodeOK(appendNode)
+//@   requires isType(node, *syntaxChildMultiIdentifier) ==> multiCtx(asType(node, *syntaxChildMultiIdentifier))
+//@   ensures ctx: len(p.params) == old(len(p.params)) + 1 && isType(topParam(p), *syntaxChildMultiIdentifier) && multiCtx(asType(topParam(p), *syntaxChildMultiIdentifier))
 
 //@ func (*jsonPathParser).pushChildSingleIdentifier
-//@   props C02 C19 C16 C18
+//@   props C02 C19 C16 C18 C03 C15
 //@   parsetime
 //@   requires p != nil
 //@   requires wf(p.params)
 // C16: the node pushed looks up exactly the (unescaped) text it was given
 //@   ensures node: len(p.params) == old(len(p.params)) + 1 && isType(topParam(p), *syntaxChildSingleIdentifier) && asType(topParam(p), *syntaxChildSingleIdentifier) != nil && asType(topParam(p), *syntaxChildSingleIdentifier).identifier == text
+//@   ensures ctx: ctxOK(asType(topParam(p), *syntaxChildSingleIdentifier).syntaxBasicNode)
 
 //@ func (*jsonPathParser).pushChildWildcardIdentifier
-//@   props C02 C19
+//@   props C02 C19 C03 C15
 //@   parsetime
 //@   requires p != nil
+//@   ensures ctx: len(p.params) == old(len(p.params)) + 1 && isType(topParam(p), *syntaxChildWildcardIdentifier) && asType(topParam(p), *syntaxChildWildcardIdentifier) != nil && ctxOK(asType(topParam(p), *syntaxChildWildcardIdentifier).syntaxBasicNode)
 
 // C09/C10 at parse time: what a comparison builds from its two operands.  A constant operand (a literal value or a $-rooted
 // path) ends up on the right; when that is a literal value its dynamic type picks the validator of a direct comparison,
@@ -1464,14 +1473,15 @@ package jsonpath
 //@   requires p != nil
 
 //@ func (*jsonPathParser).pushFilterQualifier
-//@   props C02 C19
+//@   props C02 C19 C03 C15
 //@   parsetime
 //@   requires p != nil
+//@   ensures ctx: len(p.params) == old(len(p.params)) + 1 && isType(topParam(p), *syntaxFilterQualifier) && asType(topParam(p), *syntaxFilterQualifier) != nil && ctxOK(asType(topParam(p), *syntaxFilterQualifier).syntaxBasicNode) && asType(topParam(p), *syntaxFilterQualifier).query == query
 
 // C19 / C14: the node pushed holds the function VALUE found under that name when the path was parsed - filter functions
 // are looked up first - so later changes of the Config cannot reach a parsed function
 //@ func (*jsonPathParser).pushFunction
-//@   props C02 C19 C14 C17
+//@   props C02 C19 C14 C17 C03 C15
 //@   parsetime
 //@   requires p != nil
 //@   requires wf(p.params)
@@ -1479,6 +1489,7 @@ package jsonpath
 //@   ensures pushed: len(p.params) == old(len(p.params)) + 1
 //@   ensures filter: has(p.filterFunctions, funcName) ==> isType(topParam(p), *syntaxFilterFunction) && asType(topParam(p), *syntaxFilterFunction) != nil && asType(topParam(p), *syntaxFilterFunction).function == p.filterFunctions[funcName] && asType(topParam(p), *syntaxFilterFunction).syntaxBasicNode.accessorMode == p.accessorMode
 //@   ensures aggregate: !has(p.filterFunctions, funcName) ==> has(p.aggregateFunctions, funcName) && isType(topParam(p), *syntaxAggregateFunction) && asType(topParam(p), *syntaxAggregateFunction) != nil && asType(topParam(p), *syntaxAggregateFunction).function == p.aggregateFunctions[funcName]
+//@   ensures ctx: isType(topParam(p), *syntaxFilterFunction) ? ctxOK(asType(topParam(p), *syntaxFilterFunction).syntaxBasicNode) : ctxOK(asType(topParam(p), *syntaxAggregateFunction).syntaxBasicNode)
 
 //@ func (*jsonPathParser).pushIndexSubscript
 //@   props C02 C19 C18
@@ -1513,10 +1524,11 @@ package jsonpath
 //@   ensures built: indexBuilt(p, text, true)
 
 //@ func (*jsonPathParser).pushRecursiveChildIdentifier
-//@   props C02 C19
+//@   props C02 C19 C03 C15
 //@   parsetime
 //@   requires p != nil
 //@   requires node != nil
+//@   ensures ctx: len(p.params) == old(len(p.params)) + 1 && isType(topParam(p), *syntaxRecursiveChildIdentifier) && asType(topParam(p), *syntaxRecursiveChildIdentifier) != nil && ctxOK(asType(topParam(p), *syntaxRecursiveChildIdentifier).syntaxBasicNode) && asType(topParam(p), *syntaxRecursiveChildIdentifier).syntaxBasicNode.next == node
 
 //@ func (*jsonPathParser).pushRootIdentifier
 //@   props C02 C19
@@ -1542,10 +1554,11 @@ package jsonpath
 //@   ensures built: len(p.params) == old(len(p.params)) + 1 && isType(topParam(p), *syntaxSlicePositiveStepSubscript) && asType(topParam(p), *syntaxSlicePositiveStepSubscript) != nil && asType(topParam(p), *syntaxSlicePositiveStepSubscript).start == start && asType(topParam(p), *syntaxSlicePositiveStepSubscript).end == end && asType(topParam(p), *syntaxSlicePositiveStepSubscript).step == step
 
 //@ func (*jsonPathParser).pushUnionQualifier
-//@   props C02 C19
+//@   props C02 C19 C03 C15
 //@   parsetime
 //@   requires p != nil
 //@   requires subscript != nil
+//@   ensures ctx: len(p.params) == old(len(p.params)) + 1 && isType(topParam(p), *syntaxUnionQualifier) && asType(topParam(p), *syntaxUnionQualifier) != nil && ctxOK(asType(topParam(p), *syntaxUnionQualifier).syntaxBasicNode)
 
 //@ func (*jsonPathParser).pushWildcardSubscript
 //@   props C02 C19
@@ -1585,6 +1598,9 @@ package jsonpath
 //@   requires p != nil
 //@   before updateValueGroup#1 assert vgparam: arg1 == root
 //@   before updateAccessorMode#1 assert plainparam: arg1 == root && arg2 == false
+// C14 / C08: the steps are linked in the order written - after each round `last` is the step just handled (an aggregate
+// becomes the head of the chain AND the node the next step is appended to)
+//@   loop 1 step follows: last == rangeslice1[rangeindex1]
 //@   ensures linked: wf(p.params) && (old(len(p.params)) >= 1 ==> len(p.params) == 1 && nodeWF(elemAt(p.params, off(p.params))))
 //@   requires wf(p.params) && (forall k {elemAt(p.params, k)} :: off(p.params) <= k && k < off(p.params) + len(p.params) ==> nodeOK(elemAt(p.params, k)) && 0 <= chainLen(elemAt(p.params, k)) && chainWalk(elemAt(p.params, k)))
 
@@ -1763,6 +1779,8 @@ package jsonpath
 //@   case ruleAction43 ensures str: isType(stk(p, 0), string) && asType(stk(p, 0), string) == dotUnesc(text)
 //@   case ruleAction44 ensures str: isType(stk(p, 0), string) && asType(stk(p, 0), string) == dotUnesc(text)
 //@   case ruleAction10 ensures key: isType(stk(p, 0), *syntaxChildSingleIdentifier) && asType(stk(p, 0), *syntaxChildSingleIdentifier).identifier == dotUnesc(text)
+// a multi-name selector on the stack was pushed by pushChildMultiIdentifier (its postcondition ctx)
+//@   case ruleAction11 assume isType(stk(p, 1), *syntaxChildMultiIdentifier) ==> multiCtx(asType(stk(p, 1), *syntaxChildMultiIdentifier))
 //@   case ruleAction13 assume sqValid(text)
 //@   case ruleAction13 ensures key: isType(stk(p, 0), *syntaxChildSingleIdentifier) && asType(stk(p, 0), *syntaxChildSingleIdentifier).identifier == sqJson(text)
 //@   case ruleAction14 ensures key: isType(stk(p, 0), *syntaxChildSingleIdentifier) && asType(stk(p, 0), *syntaxChildSingleIdentifier).identifier == dqJson(text)
